@@ -215,7 +215,7 @@ Lemma parse_boundary l ls acc c m :
 Proof. intro H. cbn [parse_lines]. rewrite H. reflexivity. Qed.
 
 Lemma parse_filename l raw f ls acc c m :
-  classify l = LFilename raw -> unescape_git_path dq raw = Some f ->
+  classify l = LFilename raw -> unescape_git_path dq raw = f ->
   parse_lines dq (l :: ls) acc c m = parse_lines dq ls acc c (mkMeta (m_author m) (m_boundary m) f).
 Proof. intros H U. cbn [parse_lines]. rewrite H, U. reflexivity. Qed.
 
@@ -231,7 +231,7 @@ Lemma parse_header3 l sha p2 p3 ls acc c0 m :
 Proof. intro H. cbn [parse_lines]. rewrite H. reflexivity. Qed.
 
 Lemma parse_meta_lines g content rest acc c m :
-  gentry_ok g = true -> unescape_git_path dq (g_filename_printed g) = Some (g_filename g) ->
+  gentry_ok g = true -> unescape_git_path dq (g_filename_printed g) = g_filename g ->
   parse_lines dq (meta_lines g ++ [[content_prefix] ++ content] ++ rest) acc c m
   = parse_lines dq rest acc c (meta_after g m).
 Proof.
@@ -272,7 +272,7 @@ Proof. intro H. unfold u32_or. rewrite parse_u32_print by exact H. reflexivity. 
 
 (* the first line of a group: flushes the previous hunk and starts the new one *)
 Lemma parse_block_first g content rest acc c m hs :
-  gentry_ok g = true -> unescape_git_path dq (g_filename_printed g) = Some (g_filename g) -> flush_cur c m = Ok hs ->
+  gentry_ok g = true -> unescape_git_path dq (g_filename_printed g) = g_filename g -> flush_cur c m = Ok hs ->
   parse_lines dq (line_block g 0 content ++ rest) acc c m
   = parse_lines dq rest (acc ++ hs) (Some (cur_of g)) (meta_of g).
 Proof.
@@ -287,7 +287,7 @@ Qed.
 
 (* a later line of the same group: nothing but the (identical) metadata is read *)
 Lemma parse_block_cont g k content rest acc c0 :
-  gentry_ok g = true -> unescape_git_path dq (g_filename_printed g) = Some (g_filename g) -> k <> 0 ->
+  gentry_ok g = true -> unescape_git_path dq (g_filename_printed g) = g_filename g -> k <> 0 ->
   parse_lines dq (line_block g k content ++ rest) acc (Some c0) (meta_of g)
   = parse_lines dq rest acc (Some c0) (meta_of g).
 Proof.
@@ -299,7 +299,7 @@ Proof.
 Qed.
 
 Lemma parse_blocks_cont g cs : forall k rest acc c0,
-  gentry_ok g = true -> unescape_git_path dq (g_filename_printed g) = Some (g_filename g) -> k <> 0 ->
+  gentry_ok g = true -> unescape_git_path dq (g_filename_printed g) = g_filename g -> k <> 0 ->
   parse_lines dq (entry_blocks g k cs ++ rest) acc (Some c0) (meta_of g)
   = parse_lines dq rest acc (Some c0) (meta_of g).
 Proof.
@@ -309,7 +309,7 @@ Proof.
 Qed.
 
 Lemma parse_entry g rest acc c m hs :
-  gentry_ok g = true -> unescape_git_path dq (g_filename_printed g) = Some (g_filename g) -> flush_cur c m = Ok hs ->
+  gentry_ok g = true -> unescape_git_path dq (g_filename_printed g) = g_filename g -> flush_cur c m = Ok hs ->
   parse_lines dq (entry_lines g ++ rest) acc c m
   = parse_lines dq rest (acc ++ hs) (Some (cur_of g)) (meta_of g).
 Proof.
@@ -340,7 +340,7 @@ Proof.
   induction es as [|g es IH]; intros acc c m hs Hwf Hna Hf.
   - cbn [print_lines flat_map parse_lines map]. rewrite Hf. rewrite app_nil_r. reflexivity.
   - cbn in Hwf. apply andb_true_iff in Hwf as [Hg Hes].
-    assert (Hun : unescape_git_path dq (g_filename_printed g) = Some (g_filename g)) by (apply Hna; left; reflexivity).
+    assert (Hun : unescape_git_path dq (g_filename_printed g) = g_filename g) by (apply Hna; left; reflexivity).
     assert (Hna' : names_agree dq es) by (intros g' Hg'; apply Hna; right; exact Hg').
     unfold print_lines. cbn [flat_map]. fold (print_lines es).
     rewrite (parse_entry g _ acc c m hs) by assumption.
